@@ -24,7 +24,16 @@ checks = {
              text="Replay-equivalence over histories: same seed twice in different bubbles; reproduction = failing case; any two invocations started from identical words behave identically; the presented case (replay of the pruned recording) draws what the last recording run drew minus rejected attempts; restart over the same directory replays the same values; the unpruned recording through MakeFuzz reproduces the recorded run; the same tape in a fresh OS process (cold caches) gives the same history as in a process that ran other checks before."),
  "C06": dict(engine="E1", cat="exploration", ref="§3 C06", technique="deterministic simulation: two-run history fail -> restart -> rerun on a real scratch FS with hostile names/outputs, clock jumps within and between runs",
              text="Run 1 fails with fail files enabled (hostile test names and logged output, empty bitstreams, clock cuts); exactly one new *.fail file must appear below testdata/rapid/ and be named in the message; after a restart (same second / +1 s / +1 year) the next Check, without flag or with -rapid.failfile on a moved copy, must replay exactly the minimized words before any random case and fail after 0 tests with the same message and values."),
- "C17": dict(engine="fault_enumeration" and "E1", cat="fault_enumeration", ref="§3 C17", technique="deterministic simulation: fault injection into durable state (seeded + exhaustive truncation/bit-flip corruption of real fail files) with a differential oracle against a clean directory",
+ "C14": dict(engine="E2", cat="exploration", ref="§3 C14", technique="deterministic simulation: seeded schedule search with a controlled scheduler over real goroutines (yields at rapid's own sync operations); race detector as happens-before oracle; porcupine linearizability vs a sequential T model; conservation checks",
+             note="Trusted base: Go 1.26.8 runtime and race detector (happens-before based: under the serialised execution it reports a race iff two accesses are unordered by rapid's own synchronisation, because the baton hand-off uses raw futex calls in norace functions); the go/types-driven yield rewrite of a scratch copy (instrument.log lists every site); porcupine v1.3.0; for data-race-free code all behaviours are interleavings at synchronisation operations (DRF-SC), so yields at sync ops plus the race oracle lose nothing statement-level preemption would find. Seeded search: evidence, not proof.",
+             text="1-4 simulated goroutines plus the property's own goroutine call Helper/Name/Log/Logf/Error/Errorf/Fail/Failed/Context/Cleanup on one *T (also a Custom generator's inner T) under a seeded scheduler (uniform, bursty, PCT d<=3) that decides every switch at rapid's own lock/unlock/atomic operations; oracles: zero race reports with a rapid frame, linearizable invoke/return history against a sequential model of T, every signal falsifies the case (verdict fail, never flaky or pass), cleanups registered = run exactly once, one live context per invocation cancelled afterwards, no deadlock."),
+ "C15": dict(engine="E2", cat="exploration", ref="§3 C15", technique="deterministic simulation: seeded schedule search over first/later uses of one shared generator by concurrently running checks; race detector as happens-before oracle; differential oracle against solo runs",
+             note="Trusted base: as C14 (race detector as HB oracle under a baton scheduler without harness-induced edges; yield rewrite; process-wide caches and package-level generators are recreated before every run by an injected helper so that every run starts cold). Seeded search: evidence, not proof.",
+             text="One freshly built generator expression (Deferred, Custom, Filter, Map, OneOf, StringMatching, String, SampledFrom, SliceOfN, nested) is shared by 2-4 simulated goroutines, each a check with its own T (passing Check, failing and minimizing Check, Example, String, use as sub-generator); the scheduler interleaves first uses with later uses at rapid's Once/sync.Map operations and at every draw; oracles: zero race reports with a rapid frame; every use observes exactly what it observes alone on a fresh generator (incl. the whole minimization trajectory)."),
+ "C16": dict(engine="E3", cat="fault_enumeration", ref="§3 C16", technique="deterministic fault injection: exhaustive crash-point enumeration (SIGKILL injected by strace on entry to every FS-affecting system call of a real save) with byte-comparison and fresh-process judges",
+             note="Trusted base: strace 6.1 syscall injection (validated per run: the injected run's trace must equal the baseline's prefix and end at the chosen call, else it is discarded); kernel page cache is the truth (process death, not power loss); torn single writes are dominated by the crash point before the write.",
+             text="For every sampled workload (name, 0-200 output lines, bitstream size, failure kind, pre-existing directory) EVERY file-system-affecting system call of the save is a crash point: a single-threaded child is killed on entry to that call; J1: every *.fail file left behind is byte-identical (up to timestamps) to the uninterrupted save; J2: a fresh process either behaves as if no fail file existed or replays the complete case; partial data only under temporary names."),
+ "C17": dict(engine="E1", cat="fault_enumeration", ref="§3 C17", technique="deterministic simulation: fault injection into durable state (seeded + exhaustive truncation/bit-flip corruption of real fail files) with a differential oracle against a clean directory",
              text="Faults are injected into the only durable state (the fail-file directory) between runs: 18 fault kinds incl. truncation at any offset and single-bit flips (exhaustively enumerated for a fixed reference file in the thorough tier), 1-4 files at once, passing and failing targets; differential oracle against the same run in an empty directory: no crash, same verdict/message/random cases, one log line per unusable file."),
  "C11": dict(engine="E1", cat="exploration", ref="§3 C11", technique="deterministic simulation: blame oracle over multi-case histories on the reused T (selector programs), reach probes for all 49 ordered behaviour pairs",
              text="Selector programs make consecutive test cases take every order of {pass, skip, errorf, errorf-skip, cleanup errorf, cleanup panic, fatal}; the case Check goes on to reproduce must be one that signalled, no signalling case is passed over or lost, never flaky, draw numbering restarts, brackets closed across cases."),
@@ -60,6 +69,8 @@ m = {
  },
  "engines": [
    {"name": "E1", "path": "harness/", "serves_properties": sorted(k for k,v in checks.items() if v["engine"]=="E1"), "kind_free_text": "history simulator: unmodified rapid.Check inside a testing/synctest bubble (fake clock owned by the harness), own simTB, generated property programs, private scratch directory as the only durable state"},
+   {"name": "E2", "path": "harness/ (build tag e2) + inject/verifrt + cmd/instrument", "serves_properties": sorted(k for k,v in checks.items() if v["engine"]=="E2"), "kind_free_text": "controlled scheduler: real goroutines, one baton passed by raw futex (no happens-before edge for the race detector), yield points inserted at every sync operation of a scratch copy of rapid by a go/types-driven rewrite; race detector + porcupine + differential oracles"},
+   {"name": "E3", "path": "cmd/vcheck/e3.go + harness/main_test.go", "serves_properties": sorted(k for k,v in checks.items() if v["engine"]=="E3"), "kind_free_text": "crash injector: strace kills a single-threaded child on entry to each FS-affecting system call of a real saveFailFile; the surviving directory is judged by byte comparison and by a fresh process"},
  ],
  "checks": [],
  "not_applicable": [],
